@@ -830,6 +830,16 @@ def run(ctx, rule, min_functions=1):
             continue
         findings, unpaired, nr, nc = diff_function(ref_fn, cur.node)
         for pname in ignored_params(ref_fn, cur.node):
+            # the verdict is about the program as written: the parameter must not occur in the function's own source lines either
+            # (normalisation may have inlined the only statement that read it)
+            try:
+                import re as _re
+                body_ = [b for b in cur.node.body if not (isinstance(b, ast.Expr) and isinstance(b.value, ast.Constant) and isinstance(b.value.value, str))]
+                lines = cur.unit.lines[body_[0].lineno - 1:cur.node.end_lineno] if body_ else []
+                if any(_re.search(r'\b%s\b' % _re.escape(pname), ln.split('#')[0]) for ln in lines):
+                    continue
+            except Exception:
+                continue
             ctx.violated(rule, qual, 'parameter `%s` is never read' % pname, cur.node,
                          'the confirmed function reads its parameter `%s`; the current one accepts it and ignores it (an option that is silently dropped)' % pname)
         for node, msg in exit_order_swaps(ref_fn, cur.node):
